@@ -167,6 +167,23 @@ def mk_cls(name, **kw):
     return QuantityMeta(name, (Quantity,), {}, **kw)
 
 
+def user_linear_type(name='ULen', ref='u0'):
+    """a user type whose units are declared in every accepted form, with their scales known to the harness:
+    -> (cls, {symbol: (unit, Fraction scale)})"""
+    from decimalfp import Decimal
+    from quantity.term import Term
+    T = mk_cls(name, ref_unit_symbol=ref)
+    r = T.ref_unit
+    units = {ref: (r, Fraction(1))}
+    units['ui3'] = (T.new_unit('ui3', None, Term([(3, 1), (r, 1)])), Fraction(3))            # plain int in a term
+    units['ui7'] = (T.new_unit('ui7', None, Term([(7, 1), (r, 1)])), Fraction(7))
+    units['um3'] = (T.new_unit('um3', None, 3 * r), Fraction(3))                               # int * unit
+    units['ud'] = (T.new_unit('ud', None, Decimal('0.25') * r), Fraction(1, 4))
+    units['uf'] = (T.new_unit('uf', None, Term([(Fraction(2, 7), 1), (r, 1)])), Fraction(2, 7))
+    units['uc'] = (T.new_unit('uc', None, 12 * units['ui7'][0]), Fraction(84))                 # chained on a term-defined unit
+    return T, units
+
+
 def num(s):
     """'1/3' / '0.25' / '5' -> Decimal when exactly representable else Fraction"""
     from decimalfp import Decimal
